@@ -249,3 +249,43 @@ PROPS["C12"] = dict(
                  thorough=["--cfgs", "B1", "--len", "1", "--scripted", "0", "--depth2", "1"])],
 )
 ENGINES["fault"] = "E4: fault-site enumerator over the call log of the in-memory VFS"
+
+
+def c14_plan(tier):
+    if tier == "quick":
+        return plan(["B1@4/3", "B1,snappy=1,bloom=1@0/2", "B1,cmp=1@0/2", "B2@0/2", "B1@2^" + L_DEEP, "B1@2^" + L_BIG, "B1@2^" + L_SNAP])
+    return plan(["B1@5/4", "B1,snappy=1,bloom=1@4/3", "B1,cmp=1@4/3", "B1,reuse=1@3/3", "B2@3/2", "B1@3^" + L_DEEP, "B1@3^" + L_BIG,
+                 "B1@3^" + L_SNAP, "B1,cmp=1@3^" + L_DEEP, "B1,snappy=1,bloom=1@3^" + L_BIG])
+
+
+PROPS["C14"] = dict(
+    level="model_checking",
+    technique="explicit-state BFS over operation histories on the real code; after every operation the reported level structure is re-derived from the bytes on the (in-memory) disk with independent MANIFEST/log/table decoders and checked for well-formedness",
+    rule="as C01 (with snapshots so that one user key can straddle files); oracle after every operation: leveldb.sstables == fold of the MANIFEST (independent decoder); every table decodes (independent reader) to a strictly increasing duplicate-free run within its recorded bounds and size; levels >= 1 ordered and disjoint; per user key shallower levels / newer level-0 files hold strictly newer sequences; reopen with an empty write buffer reproduces the layout",
+    assumptions=E2_ASSUME + ["independent codecs: harness/ref_codecs.c (log, table, snappy, bloom), harness/rm_manifest.c (version edits)"],
+    stages=[dict(name="hist", driver="hist", flavour="asan", args=["--alphabet", "snap", "--oracle", "layout"],
+                 quick=["--plan", c14_plan("quick")], thorough=["--plan", c14_plan("thorough")])],
+)
+
+PROPS["C19"] = dict(
+    level="model_checking",
+    technique="explicit-state enumeration of database states (all operation sequences up to a depth from the empty database and from 7 scripted layouts) x metadata-damage variants; real ldb_repair + ldb_open; expectation computed from the surviving files with independent table/log decoders",
+    rule="every history up to the given length over {put, put-1KiB, del x2, flush, compact_range(0), compact_range(1), snapshot, release} (+ scripted layouts incl. compaction outputs numbered above newer level-0 data) x 8 damage variants (MANIFEST+CURRENT deleted, CURRENT deleted, MANIFEST cut half / 1 byte short / emptied, garbage CURRENT, oldest / newest table deleted); oracle: get and iterator return the newest version present in the surviving tables and logs, a follow-up put+flush+reopen wins, no created file reuses a name; distinct = distinct (lookup, iterator) result vectors",
+    distinct_key="outcomes",
+    assumptions=E2_ASSUME[:3] + ["known finding F1 (stale point lookup after repair, see known_findings.txt) is matched by its precise signature only"],
+    stages=[dict(name="repair", driver="repair", flavour="asan",
+                 quick=["--cfgs", "B1", "--len", "3", "--sdepth", "1"],
+                 thorough=["--cfgs", "B1;B1,snappy=1,bloom=1;B1,cmp=0,reuse=1", "--len", "4", "--sdepth", "2"])],
+)
+ENGINES["repair"] = "E2: state enumeration x metadata damage, real ldb_repair/ldb_open vs independent decoders of the surviving files"
+
+PROPS["C20"] = dict(
+    level="model_checking",
+    technique="exhaustive enumeration of lifecycle call sequences (open / close / refused opens / foreign-process lock attempts) and of backup/copy points over operation histories on the real code over a VFS with POSIX record-lock semantics",
+    rule="all sequences of length <= locklen over {open, close, second open, open(error_if_exists), open(other comparator), foreign-process lock attempt}: the foreign process gets the lock iff no handle is open; ldb_backup after every history up to the given length over 7 ops (background work drained, and with the last operation's flush still pending) + 3 scripted multi-level layouts: the copy opens independently and equals the source model at that moment, later writes/compactions of the source leave it unchanged, the source stays right; ldb_copy of the closed database likewise; ldb_destroy leaves exactly 6 foreign entries; refused opens leave every database file byte-identical",
+    assumptions=E2_ASSUME[:3] + ["fcntl(F_SETLK) is modelled with POSIX semantics (per process, closing any descriptor of the file drops the lock); the foreign process is simulated by the VFS"],
+    stages=[dict(name="life", driver="life", flavour="asan",
+                 quick=["--cfgs", "B1", "--locklen", "5", "--len", "2"],
+                 thorough=["--cfgs", "B1;B1,reuse=1;B2", "--locklen", "6", "--len", "3"])],
+)
+ENGINES["life"] = "E2: lifecycle sequence enumeration (locking, backup/copy, destroy, refused opens)"
